@@ -102,7 +102,7 @@ def generate(r, tier, index):
     counter = [0]
     n_top = r.randrange(2, 9)
     root = {'t': 'map', 'items': [[f'k{i}', _gen_struct(r, 1, counter)] for i in range(n_top)]}
-    mode = r.choice(['acyclic'] * 6 + ['cycle', 'cycle', 'self', 'dangling', 'container_cycle', 'chain_to_cycle'])
+    mode = r.choice(['acyclic'] * 6 + ['cycle', 'cycle', 'self', 'dangling', 'dangling', 'through_ref', 'container_cycle', 'chain_to_cycle'])
     paths, kinds = [], {}
     _paths(root, [], paths, kinds)
     paths = [p for p in paths if p]
@@ -133,13 +133,43 @@ def generate(r, tier, index):
     if mode == 'self':
         root['items'].append(['selfref', {'t': 'ref', 'to': ['selfref']}])
     elif mode == 'dangling':
-        bad = r.choice([['nowhere'], ['k0', 'missing', 'x'], ['k0', 99], [f'k{n_top + 3}']])
+        lists = [p for p in paths if kinds[tuple(p)] == 'list' and _get(root, p) is not None and _get(root, p)['t'] == 'list']
+        maps = [p for p in paths if kinds[tuple(p)] == 'map' and _get(root, p) is not None and _get(root, p)['t'] == 'map']
+        refs_now = [p for p in paths if _get(root, p) is not None and _get(root, p)['t'] == 'ref']
+        cands = [['nowhere'], ['k0', 'missing', 'x'], ['k0', 99], [f'k{n_top + 3}']]
+        for lp in lists[:3]:
+            n = len(_get(root, lp)['items'])
+            cands += [lp + [-1], lp + [-n - 1], lp + [n], lp + ['name']]      # negative indices do not address list children
+        for mp in maps[:2]:
+            cands += [mp + [0], mp + ['no_such_key']]
+        for lf in leaves[:2]:
+            cands += [lf + ['below_a_leaf']]
+        for rp in refs_now[:3]:
+            cands += [rp + ['x'], rp + [0]]                                     # a path cannot lead through a reference
+        bad = r.choice(cands)
         if _get(root, bad) is None:
-            where = r.choice(['top', 'nested'])
+            where = r.choice(['top', 'nested', 'chain_end'])
             if where == 'top':
                 root['items'].append(['dang', {'t': 'ref', 'to': bad}])
-            else:
+            elif where == 'nested':
                 root['items'].append(['dangbox', {'t': 'map', 'items': [['in', {'t': 'list', 'items': [{'t': 'ref', 'to': bad}]}]]}])
+            else:
+                root['items'].append(['dang_end', {'t': 'ref', 'to': bad}])
+                root['items'].append(['dang_mid', {'t': 'ref', 'to': ['dang_end']}])
+                root['items'].append(['dang_start', {'t': 'ref', 'to': ['dang_mid']}])
+    elif mode == 'through_ref':
+        # references whose path leads through a reference (possibly itself): a missing path by the statement - an error, never a hang
+        c = r.randrange(4)
+        if c == 0:
+            root['items'].append(['tr_a', {'t': 'ref', 'to': ['tr_a', 'x']}])
+        elif c == 1:
+            root['items'].append(['tr_a', {'t': 'ref', 'to': ['tr_b', 'k']}])
+            root['items'].append(['tr_b', {'t': 'ref', 'to': ['tr_a', 'k']}])
+        elif c == 2:
+            root['items'].append(['tr_m', {'t': 'map', 'items': [['r', {'t': 'ref', 'to': ['tr_m', 'r', 's']}]]}])
+        else:
+            root['items'].append(['tr_t', {'t': 'ref', 'to': [r.choice(targets)[0] if targets else 'k0']}])
+            root['items'].append(['tr_u', {'t': 'ref', 'to': ['tr_t', 0, 'deeper']}])
     elif mode in ('cycle', 'chain_to_cycle'):
         n = r.randrange(2, 7)
         names = [f'y{i}' for i in range(n)]
